@@ -387,6 +387,16 @@ theorem mj_split_blocks_schedule_free (t : SplitTree) (ws : List Int) (thrB thrW
     have : ws.drop sk.length = rest := by rw [hws]; simp
     rw [this]
 
+/-- All thresholds of a slab at once. -/
+theorem mj_splits_schedule_free (t : SplitTree) (ws : List Int) (bounds : List (Int × Int))
+    (hnn : ∀ w ∈ ws, 0 ≤ w) (hb : ∀ b ∈ bounds, 0 ≤ b.1 ∧ b.1 ≤ b.2) :
+    mjSplits t ws bounds = bounds.map (fun b => firstExceed b.2 0 ws) := by
+  unfold mjSplits
+  apply List.map_congr_left
+  intro b hbm
+  have := mj_split_blocks_schedule_free t ws b.1 b.2 hnn (hb b hbm).1 (hb b hbm).2
+  simpa [mjSplit] using this
+
 example : mjSplit .leaf [3, 1, 4, 1, 5, 9, 2, 6] 10 10 = 4 ∧
     mjSplit (.node 3 .leaf (.node 2 .leaf .leaf)) [3, 1, 4, 1, 5, 9, 2, 6] 10 10 = 4 ∧
     mjSplit (.node 5 (.node 1 .leaf .leaf) .leaf) [3, 1, 4, 1, 5, 9, 2, 6] 10 10 = 4 ∧
@@ -479,3 +489,4 @@ end Coupe.Par
 #print axioms Coupe.Par.canon_renaming_invariant
 #print axioms Coupe.Par.hilbert_partweights_schedule_free
 #print axioms Coupe.Par.mj_split_blocks_schedule_free
+#print axioms Coupe.Par.mj_splits_schedule_free
